@@ -66,10 +66,37 @@ def exact(t):
     return False, False
 
 
+def has_conversion(t):
+    """the term does arithmetic on an int -> float conversion of a symbolic count (not merely converts it)"""
+    found = []
+
+    def visit(x):
+        if x[0] == 'op' and x[1] in ('add', 'sub', 'mul', 'div', 'neg'):
+            for y in x[2]:
+                inner = y
+                if inner[0] == 'op' and inner[1] in ('i2f', 'f2f') and len(inner[2]) == 1:
+                    z = inner[2][0]
+                    while z[0] == 'op' and z[1] in ('i2f', 'f2f', 'i2i') and len(z[2]) == 1:
+                        z = z[2][0]
+                    if z[0] != 'int' and z[0] != 'flt':
+                        found.append(y)
+    T.walk(t, visit)
+    return found[0] if found else None
+
+
 def inexact_side(atom):
-    """For a comparison literal: the first operand that is not exact, else None."""
+    """For a comparison literal: the first operand that is not exact, else None.
+
+    Counts are `usize`: above 2^53 the conversion to f64 rounds.  A *single* converted count compared with a
+    representable constant is still decided correctly (the conversion is monotone), but float arithmetic on converted
+    counts is not exact there (`n as f64 - k as f64` with both above 2^53: 2^53+1 trials with 10 failures give 9 or 11),
+    so such an operand is reported as well: the comparison belongs on the integers."""
     if atom[0] == 'op' and atom[1] in ('lt', 'le', 'eq', 'gt', 'ge', 'ne') and len(atom[2]) == 2:
         for x in atom[2]:
             if not exact(x)[0]:
+                return x
+        for x in atom[2]:
+            c = has_conversion(x)
+            if c is not None:
                 return x
     return None
